@@ -237,12 +237,10 @@ class ParticleCollection(Pytree):
         # Compute weighted average
         # For scalar values: sum(w_i * v_i)
         # For arrays: maintains shape of values
-        if values.ndim == 1:
-            # Simple weighted average for scalar values per particle
-            return jnp.sum(weights_normalized * values)
-        else:
-            # For multi-dimensional values, weight along the particle dimension (axis 0)
-            return jnp.sum(weights_normalized[:, None] * values, axis=0)
+        # Weight along the particle dimension (axis 0), whatever the rank of the
+        # per-particle values.
+        weights_bcast = weights_normalized.reshape((-1,) + (1,) * (values.ndim - 1))
+        return jnp.sum(weights_bcast * values, axis=0)
 
 
 def _create_particle_collection(
